@@ -1243,18 +1243,17 @@ package hashgraph
 // ------------------------------------------------------------------------------------------------
 // BadgerStore (C16): write-through / read fall-through between the in-memory store and the database.
 // The database (Badger, the codec, the key formats) is outside the verifier: the db* helpers are TRUSTED to behave
-// as the ghost maps G_db* - a committed write is what a later read decodes to (EvSame/BlockSame/RootSame: the same
+// as the ghost maps G_db* - a committed write is what a later read decodes to (BlockSame/RootSame: the same
 // content in a different object), a transaction commits all of its records or none, and a database error is never a
 // StoreErr. What is proved is the dispatch: a write that succeeds outside maintenance mode is in the database, a
 // refused or failed write leaves the database as it was, a read prefers the live cached object, falls through to
 // the database on any cache error, and reports KeyNotFound only for a key that is in neither.
-//@ ghost field *BadgerStore dbEv gmap[string, *Event]
 //@ ghost field *BadgerStore dbBlocks gmap[int, *Block]
 //@ ghost field *BadgerStore dbRoots gmap[string, *Root]
 //@ ghost field *BadgerStore dbRounds gmap[int, *RoundInfo]
 //@ ghost field *BadgerStore dbFrames gmap[int, *Frame]
 //@ ghost field *BadgerStore dbPE int
-//@ ghost opaque func EvSame(a *Event, b *Event) bool
+//@ ghost opaque func EvDecoded(data []byte, e *Event) bool
 //@ ghost opaque func BlockSame(a *Block, b *Block) bool
 //@ ghost opaque func RootSame(a *Root, b *Root) bool
 //@ ghost opaque func IsDbNF(err error) bool
@@ -1262,7 +1261,7 @@ package hashgraph
 //@ ghost opaque func DbPEListErr(v int, participant string, skip int) error
 //@ ghost opaque func DbPEItem(v int, participant string, index int) string
 //@ ghost opaque func DbPEItemErr(v int, participant string, index int) error
-//@ ghost func (s *BadgerStore) ok() bool { return s.inmemStore != nil && s.inmemStore.coupled() }
+//@ ghost func (s *BadgerStore) ok() bool { return s.inmemStore != nil && s.inmemStore.coupled() && s.db != nil }
 
 //@ func isDBKeyNotFound(err error) bool
 //@   trusted compares the error text with badger.ErrKeyNotFound's; IsDbNF is that test
@@ -1279,33 +1278,68 @@ package hashgraph
 //@   trusted Badger read + Event.UnmarshalDB: a committed record decodes to the content that was written; errors are Badger's or the codec's
 //@   requires s != nil
 //@   modifies nothing
-//@   ensures[hit]  ret1 == nil ==> ret0 != nil && __in(key, G_dbEv(s)) && EvSame(ret0, G_dbEv(s)[key])
-//@   ensures[nf]   ret1 != nil && IsDbNF(ret1) ==> !__in(key, G_dbEv(s))
+//@   ensures[hit]  ret1 == nil ==> ret0 != nil && __in(key, G_raw(s.db)) && EvDecoded(G_raw(s.db)[key], ret0)
+//@   ensures[nf]   ret1 != nil && IsDbNF(ret1) ==> !__in(key, G_raw(s.db))
 //@   ensures[err]  ret1 != nil ==> ret0 == nil && !common.IsStore(ret1, common.KeyNotFound)
 
+// The event records are verified down to the Badger API: the model of a Badger transaction below (writes are
+// buffered, Commit applies all of them or none, Get sees the buffer and the database) is ASSUMED; that dbSetEvents
+// writes, for every event of the batch, the record [hash] => [MarshalDB of the event as it is now] - also when the
+// hash is already present (coordinates and round information change after the first write) - is PROVED. The key
+// spaces (event hashes, "topo_...", "..__event_...") are assumed disjoint.
+//@ import "github.com/dgraph-io/badger"
+//@ ghost field *badger.DB raw gmap[string, []byte]
+//@ ghost field *badger.Txn pend gmap[string, []byte]
+//@ ghost field *badger.Txn base *badger.DB
+
+//@ iface func (db *badger.DB) NewTransaction(update bool) *badger.Txn
+//@   modifies nothing
+//@   ensures[new] ret0 != nil && __fresh(ret0) && G_base(ret0) == db && (forall k string :: !__in(k, G_pend(ret0)))
+
+//@ iface func (txn *badger.Txn) Get(key []byte) (*badger.Item, error)
+//@   modifies nothing
+//@   ensures[found]   ret1 == nil ==> __in(string(key), G_pend(txn)) || __in(string(key), G_raw(G_base(txn)))
+//@   ensures[missing] ret1 != nil && IsDbNF(ret1) ==> !__in(string(key), G_pend(txn)) && !__in(string(key), G_raw(G_base(txn)))
+
+//@ iface func (txn *badger.Txn) Set(key, val []byte) error
+//@   modifies G_pend(txn)
+//@   ensures[set]  ret0 == nil ==> __eq(G_pend(txn), __upd(old(G_pend(txn)), string(key), val))
+//@   ensures[fail] ret0 != nil ==> __eq(G_pend(txn), old(G_pend(txn)))
+
+//@ iface func (txn *badger.Txn) Commit() error
+//@   modifies G_raw(G_base(txn))
+//@   ensures[applied] ret0 == nil ==> (forall k string :: (__in(k, G_pend(txn)) ==> __in(k, G_raw(G_base(txn))) && __seqeq(G_raw(G_base(txn))[k], G_pend(txn)[k])) && (!__in(k, G_pend(txn)) ==> __in(k, G_raw(G_base(txn))) == old(__in(k, G_raw(G_base(txn)))) && __seqeq(G_raw(G_base(txn))[k], old(G_raw(G_base(txn)))[k])))
+//@   ensures[failed]  ret0 != nil ==> __eq(G_raw(G_base(txn)), old(G_raw(G_base(txn))))
+
+//@ iface func (txn *badger.Txn) Discard()
+//@   modifies nothing
+
 //@ func (s *BadgerStore) dbSetEvents(events []*Event) error
-//@   trusted one Badger transaction (all records or none): event record, plus topological and participant index records for a new event
-//@   requires s != nil && (forall k int :: 0 <= k && k < len(events) ==> events[k] != nil)
-//@   modifies G_dbEv(s), G_dbPE(s)
-//@   ensures[one]  ret0 == nil && len(events) == 1 ==> __eq(G_dbEv(s), __upd(old(G_dbEv(s)), HexOf(events[0]), events[0]))
-//@   ensures[fail] ret0 != nil ==> __eq(G_dbEv(s), old(G_dbEv(s))) && G_dbPE(s) == old(G_dbPE(s))
+//@   requires s != nil && s.db != nil && (forall k int :: 0 <= k && k < len(events) ==> events[k] != nil)
+//@   modifies G_raw(s.db), anyghost hashgraph.pend
+//@   call Set#2 assume[key-spaces] len(events) == 1 ==> string(__argT[[]byte](0)) != HexOf(events[0])
+//@   call Set#3 assume[key-spaces] len(events) == 1 ==> string(__argT[[]byte](0)) != HexOf(events[0])
+//@   ensures[written] ret0 == nil && len(events) == 1 ==> __in(HexOf(events[0]), G_raw(s.db)) && __seqeq(G_raw(s.db)[HexOf(events[0])], __json(DBWrapperOf(events[0])))
+//@   ensures[fail]    ret0 != nil ==> __eq(G_raw(s.db), old(G_raw(s.db)))
+//@   loop 1 invariant[tx]      tx != nil && G_base(tx) == s.db && __eq(G_raw(s.db), old(G_raw(s.db)))
+//@   loop 1 invariant[pending] len(events) == 1 && __idx() == 1 ==> __in(HexOf(events[0]), G_pend(tx)) && __seqeq(G_pend(tx)[HexOf(events[0])], __json(DBWrapperOf(events[0])))
 
 //@ func (s *BadgerStore) GetEvent(key string) (*Event, error)
 //@   requires s != nil && s.ok()
 //@   modifies nothing
 //@   ensures[cache-first] __in(interface{}(key), common.G_m(s.inmemStore.eventCache)) ==> ret1 == nil && ret0 == G_events(s.inmemStore)[key]
-//@   ensures[value]       ret1 == nil ==> ret0 != nil && ((__in(key, G_events(s.inmemStore)) && ret0 == G_events(s.inmemStore)[key]) || (__in(key, G_dbEv(s)) && EvSame(ret0, G_dbEv(s)[key])))
-//@   ensures[notfound]    common.IsStore(ret1, common.KeyNotFound) ==> !__in(interface{}(key), common.G_m(s.inmemStore.eventCache)) && !__in(key, G_dbEv(s))
+//@   ensures[value]       ret1 == nil ==> ret0 != nil && ((__in(key, G_events(s.inmemStore)) && ret0 == G_events(s.inmemStore)[key]) || (__in(key, G_raw(s.db)) && EvDecoded(G_raw(s.db)[key], ret0)))
+//@   ensures[notfound]    common.IsStore(ret1, common.KeyNotFound) ==> !__in(interface{}(key), common.G_m(s.inmemStore.eventCache)) && !__in(key, G_raw(s.db))
 //@   ensures[err]         ret1 != nil ==> ret0 == nil
 
 //@ func (s *BadgerStore) SetEvent(event *Event) error
 //@   ints checked
 //@   requires s != nil && s.ok() && event != nil && event.Body.Index >= 0 && event.Body.Index < 4611686018427387904
-//@   modifies common.G_m(s.inmemStore.eventCache), any common.RollingIndex.items, any common.RollingIndex.lastIndex, G_events(s.inmemStore), G_dbEv(s), G_dbPE(s)
-//@   ensures[write-through] ret0 == nil && !s.maintenanceMode ==> __eq(G_dbEv(s), __upd(old(G_dbEv(s)), HexOf(event), event))
+//@   modifies common.G_m(s.inmemStore.eventCache), any common.RollingIndex.items, any common.RollingIndex.lastIndex, G_events(s.inmemStore), G_raw(s.db), anyghost hashgraph.pend
+//@   ensures[write-through] ret0 == nil && !s.maintenanceMode ==> __in(HexOf(event), G_raw(s.db)) && __seqeq(G_raw(s.db)[HexOf(event)], __json(DBWrapperOf(event)))
 //@   ensures[cache]         ret0 == nil ==> __eq(G_events(s.inmemStore), __upd(old(G_events(s.inmemStore)), HexOf(event), event))
-//@   ensures[maintenance]   s.maintenanceMode ==> __eq(G_dbEv(s), old(G_dbEv(s)))
-//@   ensures[failed]        ret0 != nil ==> __eq(G_dbEv(s), old(G_dbEv(s)))
+//@   ensures[maintenance]   s.maintenanceMode ==> __eq(G_raw(s.db), old(G_raw(s.db)))
+//@   ensures[failed]        ret0 != nil ==> __eq(G_raw(s.db), old(G_raw(s.db)))
 //@   ensures[ok]            s.ok()
 
 //@ func (s *InmemStore) GetRoot(participant string) (*Root, error)
